@@ -1085,15 +1085,23 @@ pub fn check_c18b(plan: &Plan, out: &RunOutput) -> Option<Violation> {
             }
         }
         Some(p) => {
-            let expected_line = format!("password {}", p.password);
-            if out.server_lines.first() != Some(&expected_line) {
+            // the first line must be the password command carrying exactly that password, as the
+            // server's tokenizer reads it (a password with blanks travels quoted)
+            let first_ok = out
+                .server_lines
+                .first()
+                .and_then(|l| crate::session::mpd::tokenize(l.as_bytes()).ok())
+                .map(|(w, a)| w == "password" && a.len() == 1 && a[0] == p.password.as_bytes())
+                .unwrap_or(false);
+            let expected_line = out.server_lines.first().cloned().unwrap_or_default();
+            if !first_ok {
                 return Some(Violation::new(
                     "C18",
                     "password_not_first",
                     format!(
-                        "first line the server received is {:?}, expected {:?}",
+                        "first line the server received is {:?}, expected the password command with exactly {:?}",
                         out.server_lines.first(),
-                        expected_line
+                        p.password
                     ),
                 ));
             }
